@@ -299,3 +299,6 @@ PROPS['C14']['technique'] = 'bounded model checking with Kani/CBMC end to end (N
 PROPS['C14']['bounds'] += ' M: for every N in 0..=4200 and every precision (None or any usize): unreachable_unchecked unreachable, every unchecked index in range, the encoder\'s size precondition holds at both call sites, exactly min(precision, 2N) digits emitted and only digits the encoder produced, input bytes consumed in index order; the encoder is a stub with its contract.'
 PROPS['C14']['outside'] = ['feature faster-hex on: the SIMD kernels (inline asm/intrinsics) cannot be encoded; the crate-side preconditions (which make unwrap_unchecked sound) are what M discharges', 'N > 4200 (chunk-loop unrolling bound)', 'width/fill flags (ignored by the implementation)']
 PROPS['C14']['assumptions'] += ['M stub: hex_encode / hex_encode_fallback write the digits of src into dst[..2*src.len()] provided dst.len() >= 2*src.len() (the fallback\'s behaviour is checked end to end by K for N <= 17)']
+
+PROPS['C06']['mir']['validate'] = True
+PROPS['C05']['mir']['validate'] = True
